@@ -33,6 +33,10 @@ def fam_rand(size):
     return f
 
 
+def fam_negative(tier, seed, n):
+    return randscenes.negative_scenes(seed, n - n // 4, 'tiny') + randscenes.negative_scenes(seed, n // 4, 'mid'), None
+
+
 def fam_crossing(tier, seed, n):
     return randscenes.crossing_scenes(seed, n), None
 
@@ -118,8 +122,8 @@ PLANS = {
         'mc': {'quick': [('okta', dict(invariants=['Inv_C03'], prmset='PrmOkta', ceilos=('a',), nt=3, slice_oracle='bands'))],
                'thorough': [('okta', dict(invariants=['Inv_C03'], prmset='PrmOkta', ceilos=('a', 'b'), nt=2, slice_oracle='bands')),
                             ('okta3', dict(invariants=['Inv_C03'], prmset='PrmOkta', ceilos=('a',), nt=4))]},
-        'families': {'quick': [('F7nm', fam_nm, 900), ('F1', fam_model('PrmOkta'), 250), ('Ranomaly', fam_anomaly, 250), ('Rtiny', fam_rand('tiny'), 250), ('Rmid', fam_rand('mid'), 40)],
-                     'thorough': [('F7nm', fam_nm, None), ('F1', fam_model('PrmOkta'), 6000), ('F1x', fam_model('PrmOkta', ceilos=('a',), nt=3), None), ('Ranomaly', fam_anomaly, 3000), ('Rtiny', fam_rand('tiny'), 3000), ('Rmid', fam_rand('mid'), 400)]},
+        'families': {'quick': [('F7nm', fam_nm, 900), ('F1', fam_model('PrmOkta'), 250), ('Ranomaly', fam_anomaly, 250), ('Rneg', fam_negative, 100), ('Rtiny', fam_rand('tiny'), 250), ('Rmid', fam_rand('mid'), 40)],
+                     'thorough': [('F7nm', fam_nm, None), ('F1', fam_model('PrmOkta'), 6000), ('F1x', fam_model('PrmOkta', ceilos=('a',), nt=3), None), ('Ranomaly', fam_anomaly, 3000), ('Rneg', fam_negative, 1500), ('Rtiny', fam_rand('tiny'), 3000), ('Rmid', fam_rand('mid'), 400)]},
         'marks': ['N_multihit', 'N_okta0buf', 'N_okta8buf', 'N_oktatie', 'N_rows'],
         'seed_shift': 11,
     },
@@ -143,8 +147,8 @@ PLANS = {
                             ('ids2', dict(invariants=['Inv_C05'], prmset='PrmSplit', ceilos=('a',), nt=2, slice_oracle='any', group_oracle='hits')),
                             ('ids3', dict(invariants=['Inv_C05'], prmset='PrmSplit', ceilos=('a', 'b'), nt=2, slice_oracle='bands', group_oracle='slices')),
                             ('layerids', 'MC_LayerIds')]},
-        'families': {'quick': [('F4stress', fam_stress, 2), ('F3b', fam_split, 120), ('F1', fam_model('PrmSplit'), 200), ('Ranomaly', fam_anomaly, 150), ('F6tail', fam_tail, 120), ('Rtiny', fam_rand('tiny'), 250), ('Rmid', fam_rand('mid'), 80)],
-                     'thorough': [('F4stress', fam_stress, 8), ('F3b', fam_split, 2000), ('F1', fam_model('PrmSplit'), 5000), ('F1x', fam_model('PrmSplit', ceilos=('a',), nt=3), None), ('Ranomaly', fam_anomaly, 2000), ('F6tail', fam_tail, 1500), ('Rtiny', fam_rand('tiny'), 3000), ('Rmid', fam_rand('mid'), 800), ('Rbig', fam_rand('big'), 80)]},
+        'families': {'quick': [('F4stress', fam_stress, 2), ('F3b', fam_split, 120), ('F1', fam_model('PrmSplit'), 200), ('Ranomaly', fam_anomaly, 150), ('F6tail', fam_tail, 120), ('Rneg', fam_negative, 100), ('Rtiny', fam_rand('tiny'), 250), ('Rmid', fam_rand('mid'), 80)],
+                     'thorough': [('F4stress', fam_stress, 8), ('F3b', fam_split, 2000), ('F1', fam_model('PrmSplit'), 5000), ('F1x', fam_model('PrmSplit', ceilos=('a',), nt=3), None), ('Ranomaly', fam_anomaly, 2000), ('F6tail', fam_tail, 1500), ('Rneg', fam_negative, 1500), ('Rtiny', fam_rand('tiny'), 3000), ('Rmid', fam_rand('mid'), 800), ('Rbig', fam_rand('big'), 80)]},
         'marks': ['N_split', 'N_split3', 'N_gmm1', 'N_merge', 'N_crop', 'N_cropdrop', 'N_multihit'],
         'seed_shift': 17,
     },
@@ -159,8 +163,8 @@ PLANS = {
                             ('excl', dict(invariants=['Inv_C06g'], prmset='PrmPinM', ceilos=('a', 'b'), nt=2, lattice='LatticeE', maxper=1)),
                             ('pinned_merge', dict(invariants=['Inv_C06g'], prmset='PrmPinM', ceilos=('a', 'b'), nt=2, lattice='LatticeE', maxper=1, merge_excl=False), 'Inv_C06g'),
                             ('pinned_order', dict(invariants=['Inv_C06l'], prmset='PrmPinO', ceilos=('a',), nt=4, lattice='LatticeF', maxper=2, orders=('desc',), gmm_time=False), 'Inv_C06l')]},
-        'families': {'quick': [('F3', fam_bands, 500), ('F3b', fam_split, 300), ('F3d', fam_tiesplit, 144), ('Rtiny', fam_rand('tiny'), 250), ('Rmid', fam_rand('mid'), 60)],
-                     'thorough': [('F3', fam_bands, None), ('F3b', fam_split, None), ('F3d', fam_tiesplit, 2500), ('Rtiny', fam_rand('tiny'), 4000), ('Rmid', fam_rand('mid'), 800), ('Rbig', fam_rand('big'), 60)]},
+        'families': {'quick': [('F3', fam_bands, 500), ('F3b', fam_split, 300), ('F3d', fam_tiesplit, 144), ('Rneg', fam_negative, 160), ('Rtiny', fam_rand('tiny'), 250), ('Rmid', fam_rand('mid'), 60)],
+                     'thorough': [('F3', fam_bands, None), ('F3b', fam_split, None), ('F3d', fam_tiesplit, 2500), ('Rneg', fam_negative, 2000), ('Rtiny', fam_rand('tiny'), 4000), ('Rmid', fam_rand('mid'), 800), ('Rbig', fam_rand('big'), 60)]},
         'marks': ['N_merge', 'N_2groups', 'N_sepbin2', 'N_noremerge', 'N_split', 'N_split3'],
         'seed_shift': 19,
     },
